@@ -4,7 +4,7 @@
    crate (process exit before the k-th I/O event, incl. between the index temp-file write, its
    fsync and the rename) judged by these acceptors. *)
 From W Require Import model.Base model.Engine model.EngineCfg spec.Queue spec.Crash proofs.CrashP proofs.EngineWF proofs.EngineInv proofs.EngineMain
-  proofs.EngineDisk proofs.EnginePos proofs.EngineNorm proofs.EngineReopen proofs.EngineC06 proofs.EngineALO2 proofs.EngineSince proofs.EngineSince2 proofs.EngineCrash.
+  proofs.EngineDisk proofs.EnginePos proofs.EngineNorm proofs.EngineReopen proofs.EngineC06 proofs.EngineALO2 proofs.EngineSince proofs.EngineSince2 proofs.EngineCrash proofs.EngineSinceR.
 
 Theorem c09_strict_acceptor_means : forall app deliv rec,
   c09_strict_one app deliv rec 0 = true -> outs_are (deliv ++ rec) app = true.
@@ -126,6 +126,49 @@ Example c09_witness_alo_bound :
   unread small_cfg (nrm false (get_ts (reopen small_cfg (exec (env_of small_cfg (ALO 3) Fd) init ops)) 1)) = [en 3 10; en 4 10].
 Proof. vm_compute. repeat split; reflexivity. Qed.
 
+(* the same bound for histories WITH earlier restarts (any number, outside block-id drift, boolean
+   outside_known of the history followed by the final restart): the ledger is the one maintained
+   along the run and rolled back to the recovered position at every restart ([gm_ledger],
+   proofs/EngineSinceR.v), so l_del counts from the last roll-back; the reads-since-persist counter
+   restarts at 0 after every restart (the persisted position then resolves exactly to the recovered
+   cursor).  Also: what the consumer had left before the crash (third conjunct) and the entry count
+   the restart rebuilds (appended - k). *)
+Theorem c09_alo_redelivery_bound_with_restarts : forall (c : Cfg) (n : N) (be : backend) (ops : list op),
+  cfg_ok c -> n <= u32_max ->
+  forallb rn_only ops = true ->
+  outside_known (env_of c (ALO n) be) init (ops ++ [OReopen]) = true ->
+  N.of_nat (length (offered_all ops)) <= u64_max -> sum_len (offered_all ops) <= u64_max ->
+  let s := exec (env_of c (ALO n) be) init ops in
+  let g := gm_ledger (env_of c (ALO n) be) init [] ops in
+  forall t x,
+    stream (get_ts (reopen c s) t) = l_app (lget g t) /\
+    (l_del (lget g t) <= length (l_app (lget g t)))%nat /\
+    unread c (nrm x (get_ts s t)) = skipn (l_del (lget g t)) (l_app (lget g t)) /\
+    exists k, (k <= l_del (lget g t))%nat /\ N.of_nat (l_del (lget g t) - k) <= n /\
+              N.of_nat (l_del (lget g t) - k) < N.max n 1 /\
+              unread c (nrm x (get_ts (reopen c s) t)) = skipn k (l_app (lget g t)) /\
+              cnt (get_ts (reopen c s) t) = N.of_nat (length (l_app (lget g t)) - k).
+Proof. exact crash_after_restarts_alo_bound. Qed.
+
+(* non-vacuity: AtLeastOnce{3}; 4 consuming reads (position persisted at the 3rd), a restart (entry 3
+   is delivered again), then two consuming reads with a batch peek in between and an append: the
+   ledger says 5 of 6 delivered; the final restart resumes at 3 (5 - 3 = 2 <= 3 delivered again) and
+   rebuilds the count 3 = 6 - 3 *)
+Example c09_witness_alo_bound_with_restarts :
+  let ops := [OAppend tt (en 0 10); OAppend tt (en 1 10); OAppend tt (en 2 10); OAppend tt (en 3 10); OAppend tt (en 4 10);
+              ORead tt true; ORead tt true; ORead tt true; ORead tt true; OReopen; OCount tt;
+              ORead tt true; OBatchRead tt 100000 false None; ORead tt true; OAppend tt (en 5 10)] in
+  let v := env_of small_cfg (ALO 3) Fd in
+  forallb rn_only ops = true /\ outside_known v init (ops ++ [OReopen]) = true /\
+  map snd (trace v init (ops ++ [OReopen; OCount tt; ORead tt true]))
+  = [ROk; ROk; ROk; ROk; ROk; REntry (out_of (en 0 10)); REntry (out_of (en 1 10)); REntry (out_of (en 2 10)); REntry (out_of (en 3 10));
+     ROk; RNum 2; REntry (out_of (en 3 10)); REntries [out_of (en 4 10)]; REntry (out_of (en 4 10)); ROk;
+     ROk; RNum 3; REntry (out_of (en 3 10))] /\
+  l_del (lget (gm_ledger v init [] ops) 1) = 5%nat /\ length (l_app (lget (gm_ledger v init [] ops) 1)) = 6%nat /\
+  unread small_cfg (nrm false (get_ts (reopen small_cfg (exec v init ops)) 1)) = [en 3 10; en 4 10; en 5 10].
+Proof. vm_compute. repeat split; reflexivity. Qed.
+
+
 (* StrictlyAtOnce, crash INSIDE a consuming read_next.  The only durable effect of a read is the index
    persist: temp-file write, fsync, rename, directory fsync.  The rename is atomic, so a crash at any of
    these points leaves the OLD or the NEW persisted position and nothing else changed: the crash image
@@ -233,3 +276,19 @@ Check c09_strict_crash_inside_read : forall (c : Cfg) (be : backend) (ops : list
                 unread c (nrm x (get_ts (reopen c s') (t_id t))) = skipn (if (d <? length A)%nat then S d else d) A).
 Print Assumptions c09_strict_crash_inside_read.
 Print Assumptions c09_strict_crash_inside_batch_read.
+Check c09_alo_redelivery_bound_with_restarts : forall (c : Cfg) (n : N) (be : backend) (ops : list op),
+  cfg_ok c -> n <= u32_max ->
+  forallb rn_only ops = true ->
+  outside_known (env_of c (ALO n) be) init (ops ++ [OReopen]) = true ->
+  N.of_nat (length (offered_all ops)) <= u64_max -> sum_len (offered_all ops) <= u64_max ->
+  let s := exec (env_of c (ALO n) be) init ops in
+  let g := gm_ledger (env_of c (ALO n) be) init [] ops in
+  forall t x,
+    stream (get_ts (reopen c s) t) = l_app (lget g t) /\
+    (l_del (lget g t) <= length (l_app (lget g t)))%nat /\
+    unread c (nrm x (get_ts s t)) = skipn (l_del (lget g t)) (l_app (lget g t)) /\
+    exists k, (k <= l_del (lget g t))%nat /\ N.of_nat (l_del (lget g t) - k) <= n /\
+              N.of_nat (l_del (lget g t) - k) < N.max n 1 /\
+              unread c (nrm x (get_ts (reopen c s) t)) = skipn k (l_app (lget g t)) /\
+              cnt (get_ts (reopen c s) t) = N.of_nat (length (l_app (lget g t)) - k).
+Print Assumptions c09_alo_redelivery_bound_with_restarts.
